@@ -522,4 +522,83 @@ Proof.
   apply client_reads_variants; assumption.
 Qed.
 
+(* ------------------------------------------------------------------ *)
+(** * SyncCollection on a conformant sync-collection answer (RFC 6578 section 3.5) *)
+
+Inductive member := Changed (path etag : string) (sec : Z) | Gone (path : string).
+
+Definition sync_resp (m : member) : wresp :=
+  match m with
+  | Changed p e s =>
+    {| wr_hrefs := [href_enc cd p]; wr_status := None;
+       wr_groups := [ {| wg_code := 200; wg_reason := "OK";
+                         wg_props := [simple n_getlastmodified (time_enc cd s); simple n_getetag (etag_enc cd e)];
+                         wg_status_first := false; wg_junk := []; wg_pjunk := [] |} ];
+       wr_desc := ""; wr_junk := [] |}
+  | Gone p =>
+    {| wr_hrefs := [href_enc cd p]; wr_status := Some (404, "Not Found"%string);
+       wr_groups := []; wr_desc := ""; wr_junk := [] |}
+  end.
+Definition sync_doc (members : list member) (token : string) : wdoc :=
+  {| wd_resps := map sync_resp members; wd_token := token; wd_junk := [] |}.
+Definition sync_item_of (m : member) : sync_item :=
+  match m with Changed p e s => Updated p e s | Gone p => Deleted p end.
+
+(** the codecs round-trip the member's values, and it is not the collection itself *)
+Definition member_ok (reqpath : string) (m : member) : Prop :=
+  match m with
+  | Changed p e s =>
+    href_dec cd (href_enc cd p) = Some p /\ etag_dec cd (etag_enc cd e) = Some e /\ time_dec cd (time_enc cd s) = Some s
+    /\ p <> reqpath /\ reqpath <> (p ++ "/")%string
+  | Gone p => href_dec cd (href_enc cd p) = Some p
+  end.
+
+Lemma sync_doc_ok members token : wdoc_ok (sync_doc members token) = true.
+Proof.
+  unfold wdoc_ok, sync_doc. cbn [wd_junk wd_resps]. apply andb_true_iff. split; [reflexivity|].
+  apply forallb_forall. intros r Hr. apply in_map_iff in Hr. destruct Hr as (m & <- & _). destruct m; reflexivity.
+Qed.
+
+Lemma sync_one_member reqpath m :
+  member_ok reqpath m ->
+  exists r, resp_opt (sync_resp m) = Some r /\ sync_one cd reqpath r = COk [sync_item_of m].
+Proof.
+  destruct m as [p e s | p]; cbn [member_ok].
+  - intros (HP & HE & HT & N1 & N2). unfold resp_opt. cbn [sync_resp wr_hrefs mapM]. rewrite HP.
+    eexists. split; [reflexivity|].
+    unfold sync_one, response_path, response_err, resp_of_wresp. cbn [r_hrefs r_status wr_status option_map].
+    apply String.eqb_neq in N1. apply String.eqb_neq in N2. rewrite N1, N2. cbn [orb].
+    rewrite !decode_prop_raw_lookup'. unfold response_err. cbn [r_status r_propstats wr_groups map].
+    unfold lookup. cbn [find_prop ps_of_group ps_props ps_status wg_props wg_code wg_reason].
+    replace (find (has_name n_getlastmodified) [simple n_getlastmodified (time_enc cd s); simple n_getetag (etag_enc cd e)])
+      with (Some (simple n_getlastmodified (time_enc cd s))) by reflexivity.
+    replace (find (has_name n_getetag) [simple n_getlastmodified (time_enc cd s); simple n_getetag (etag_enc cd e)])
+      with (Some (simple n_getetag (etag_enc cd e))) by reflexivity.
+    cbn [option_map fst snd st_code]. change (Z.quot 200 100 =? 2) with true. cbv iota.
+    assert (SC : forall n x, chardata (root_kids (simple n x)) = x) by (intros n x; exact (chardata_text_nodes x)).
+    unfold optional, dec_time, dec_etag. rewrite !SC, HT, HE. reflexivity.
+  - intros HP. unfold resp_opt. cbn [sync_resp wr_hrefs mapM]. rewrite HP.
+    eexists. split; [reflexivity|]. reflexivity.
+Qed.
+
+(** SyncCollection returns the token, the changed members with entity tag and instant,
+    and the removed members, in document order. *)
+Theorem sync_reads_canonical reqpath members token :
+  (forall m, In m members -> member_ok reqpath m) ->
+  sync_collection cd reqpath (rfc_write (sync_doc members token)) = COk (token, map sync_item_of members).
+Proof.
+  intros H. unfold sync_collection. rewrite dec_multistatus_wdoc by apply sync_doc_ok.
+  unfold ms_opt, sync_doc. cbn [wd_resps wd_token].
+  assert (G : exists rs, mapM resp_opt (map sync_resp members) = Some rs
+                         /\ mapC (sync_one cd reqpath) rs = COk (map (fun m => [sync_item_of m]) members)).
+  { induction members as [|m l IH]; [exists []; split; reflexivity|].
+    destruct (sync_one_member reqpath m (H m (or_introl eq_refl))) as (r & E1 & E2).
+    destruct IH as (rs & E3 & E4); [intros x Hx; apply H; right; exact Hx|].
+    exists (r :: rs). split.
+    - cbn [map mapM]. rewrite E1, E3. reflexivity.
+    - cbn [mapC map]. rewrite E2. cbn [bindc]. rewrite E4. reflexivity. }
+  destruct G as (rs & E1 & E2). rewrite E1. cbn [ms_responses ms_sync_token]. rewrite E2. cbn [bindc].
+  f_equal. f_equal. clear. induction members; cbn; [reflexivity | rewrite IHmembers; reflexivity].
+Qed.
+
 End Variants.
